@@ -60,8 +60,9 @@ fn hist<T: CellT + std::hash::Hash>(seed: u64, histories: usize, steps: usize, m
         let huge = histories >= 100 && (h == 12 || h == 13 || h == 110) && !bulky && !faults;
         let large = huge || rng.chance(25);
         let (nc, nr) = if huge {
-            // (about 10^6 cells for element types without a ledger entry per element, 10^5 otherwise)
-            if T::TRACKED { (262 + rng.below(70), 262 + rng.below(70)) } else { (1030 + rng.below(30), 1020 + rng.below(30)) }
+            // (a little over 2^20 cells BEHIND a line removed near the front for element types without a ledger entry per
+            // element, 10^5 otherwise)
+            if T::TRACKED { (262 + rng.below(70), 262 + rng.below(70)) } else { (1040 + rng.below(30), 1040 + rng.below(30)) }
         } else if large {
             let a = 13 + rng.below(118);
             // often only a few lines in the other direction, so that histories reach "last line removed" on long lines
